@@ -535,6 +535,17 @@ func (r *Run) callWithSpec(fr *Frame, st *State, reach Term, sp *FuncSpec, sig *
 	if instr != nil {
 		pos = instr.Pos()
 	}
+	if instr != nil {
+		// ghost code anchored just before the call (it may establish what the precondition needs)
+		av := map[string]Val{}
+		for k, v := range env.vars {
+			av["arg_"+k] = v
+		}
+		r.ghostAt(fr, st, reach, fmt.Sprintf("before:%s#%d", short, ord), instr, av)
+		if r.fatal != "" {
+			return r.freshTypedResults(sig, st), reach
+		}
+	}
 	// 1. precondition
 	for i, c := range sp.Requires {
 		parts := env.evalBoolParts(c.E)
